@@ -259,7 +259,6 @@ def histories(ctx: Ctx) -> None:
 
 
 def replay(ctx: Ctx, path: str) -> None:
-    import json
-    with open(path) as f:
-        print(json.dumps(json.load(f), indent=1)[:3000])
+    """re-run the recorded input (the step that reported it runs that single case)"""
+    ctx.load_replay(path)
     run(ctx)
